@@ -540,10 +540,22 @@ def replay(key, obligation, witness):
     if key.startswith("ordering"):
         import fdtdx.dispersion as D
 
-        for attempt, perm in enumerate(itertools.permutations(range(3))):
+        bases = [
+            [(1.0, 1.0, 0.0, 0.0), (1.0, 1.0, 0.0, 1.0), (2.0, 1.0, 0.0, 0.0)],  # tie down to the last key
+            [(1.0, 2.0, 0.0, 0.0), (1.0, 1.0, 0.5, 0.0), (2.0, 1.0, 0.0, 0.0)],  # eps tie, decided by mu
+            [(1.0, 1.0, 0.7, 0.0), (1.0, 1.0, 0.2, 0.0), (0.5, 3.0, 0.0, 0.0)],  # eps, mu tie, decided by sigma
+        ]
+        # the witness' own keys first, when it carries them
+        wk = []
+        for nm in ("mat_c", "mat_a", "mat_d"):
+            ks = [sc.get(f"{nm}_{p}_0") for p in PROPS]
+            wk.append(tuple(float(k) if isinstance(k, (int, float)) else 1.0 for k in ks))
+        if any(f"mat_c_{p}_0" in sc for p in PROPS):
+            wk = [(e if e > 0 else 1.0, u, se, sm) for e, u, se, sm in wk]
+            bases.insert(0, wk)
+        for attempt, (base, perm) in enumerate((b, pm) for b in bases for pm in itertools.permutations(range(3))):
             rng = np.random.default_rng(attempt)
             names = ["mat_c", "mat_a", "mat_d"]
-            base = [(1.0, 1.0, 0.0, 0.0), (1.0, 1.0, 0.0, 1.0), (2.0, 1.0, 0.0, 0.0)]
             mats = {}
             for nm, k in zip(names, perm):
                 e, u, se, sm = base[k]
